@@ -69,7 +69,11 @@ class Contains(Relation):
         x, y = Q.materialise(rs, q)
         pc = PixCoord(x, y)
         want_shape = np.broadcast(np.asarray(x), np.asarray(y)).shape
+        from vf.fingerprint import fp
+        before = (fp(reg), fp(pc))
         ans = reg.contains(pc)
+        ctx.check((fp(reg), fp(pc)) == before,
+                  f'{cls} | contains modifies the region or the coordinates')
         sig = f"{cls} include={ref._compound_meta(rs).get('include', 'absent') if cls == 'CompoundPixelRegion' else (rs.get('meta') or {}).get('include', 'absent')!r}"
         ctx.label(cls, 'layout:' + q['layout'], 'dtype:' + q['dtype'],
                   G.angle_family(rs), 'num:' + str(rs.get('num')))
